@@ -44,18 +44,47 @@ def show(o):
     return {"raises": o[1], "message": o[2]}
 
 
+PARTS = ("scheme", "netloc", "path", "query", "fragment")
+
+
+def real_arg(v):
+    if isinstance(v, dict) and "__url__" in v:
+        from yarl._url import from_parts_uncached
+        return from_parts_uncached(*[v["__url__"][p] for p in PARTS])
+    return v
+
+
+def spec_arg(v):
+    if isinstance(v, dict) and "__url__" in v:
+        from contracts.spec_url import U
+        return U(*[v["__url__"][p] for p in PARTS])
+    return v
+
+
+def norm_result(o):
+    """URL objects (real) and U values (spec) are compared by their five stored parts"""
+    if o[0] != "ret":
+        return o
+    v = o[1]
+    if type(v).__name__ == "URL" and hasattr(v, "_scheme"):
+        v = ("URL-parts", v._scheme, v._netloc, v._path, v._query, v._fragment)
+    elif type(v).__name__ == "U":
+        v = ("URL-parts", v.scheme, v.netloc, v.path, v.query, v.fragment)
+    return ("ret", v)
+
+
 def judge(contract, inputs):
     """inputs: dict name -> python value.  Returns dict(real=..., spec=..., agrees=bool, in_pre=bool)"""
     real = resolve(contract.qual)
-    args = [inputs[n] for n, _ in contract.params]
+    raw = [inputs[n] for n, _ in contract.params]
     in_pre = True
     if contract.requires is not None:
         try:
-            in_pre = bool(contract.requires(*args))
+            in_pre = bool(contract.requires(*[spec_arg(a) for a in raw]))
         except BaseException:
             in_pre = False
-    r = outcome(real, args)
-    s = outcome(contract.spec, args)
+    r = norm_result(outcome(real, [real_arg(a) for a in raw]))
+    s = norm_result(outcome(contract.spec, [spec_arg(a) for a in raw]))
     return {"real": show(r), "spec": show(s), "agrees": agrees(r, s), "in_pre": in_pre}
 
 
@@ -81,10 +110,13 @@ def alphabet_for(contract, seed_inputs):
         for n in ast.walk(tree):
             if isinstance(n, ast.Constant) and isinstance(n.value, str) and len(n.value) <= 4 and not n.value.isalnum():
                 add(c for c in n.value if not c.isalnum())
+        for n in ast.walk(tree):
+            if isinstance(n, ast.Constant) and isinstance(n.value, str) and len(n.value) <= 4 and not n.value.isalnum():
+                add(c for c in n.value if not c.isalnum())
             elif isinstance(n, ast.Name) and mod is not None:
                 v = getattr(mod, n.id, None)
-                if isinstance(v, str) and len(v) <= 40:
-                    add(c for c in v if not c.isalnum())
+                if isinstance(v, str) and len(v) <= 80:
+                    add([c for c in v if not c.isalnum()][:2])
                 elif isinstance(v, (list, tuple)) and len(v) <= 8 and all(isinstance(x, str) and len(x) <= 2 for x in v):
                     add("".join(v))
     for v in seed_inputs.values():
